@@ -354,6 +354,18 @@ impl<'a> Gen<'a> {
             // an attribute no validator knows
             b.attrs.push(("owner".into(), "team-\u{3b1}".into()));
         }
+        if self.rng.chance(1, 8) {
+            // names and unquoted values may use any alphanumeric character, not just ASCII
+            let (k, v) = *self.rng.pick(&[
+                ("gr\u{f6}\u{df}e", "1"),
+                ("\u{540d}\u{524d}", "x"),
+                ("\u{43a}\u{43b}\u{44e}\u{447}", "\u{437}\u{43d}\u{430}\u{447}\u{435}\u{43d}\u{438}\u{435}-1"),
+                ("reviewer", "\u{17b}aneta"),
+                ("n\u{663}", "\u{663}"),
+                ("team_2", "core"),
+            ]);
+            b.attrs.push((k.into(), v.into()));
+        }
         if self.rng.chance(1, 6) {
             // attribute names are case-sensitive: a differently-cased look-alike of a known name is
             // just another unknown attribute (and reaches scripts exactly as written)
@@ -539,6 +551,7 @@ impl<'a> Gen<'a> {
                 path: p.clone(),
                 tab_tags: self.rng.chance(1, 10),
                 bom: self.rng.chance(1, 10),
+                spelling: if self.rng.chance(1, 6) { self.rng.next_u64() | 1 } else { 0 },
                 ..Default::default()
             };
             for _ in 0..nb {
